@@ -74,57 +74,57 @@ Theorem C08_no_tiebreak_before_start : forall p incoming now,
 Proof. exact tiebreak_before_start. Qed.
 
 (* ---- renaming, on all byte strings -------------------------------------------------------------- *)
-(* no_byte c s: the byte c does not occur in s; starts_dot_or_empty r: r is "" or begins with '.';
+(* plain x: no '.' and no '\' in x; starts_dot_or_empty r: r is "" or begins with '.';
    all_digits ds: ASCII digits; digits_val: their decimal value; dec n: n printed in decimal. *)
 
 (* 'x.<rest>' -> 'x (2).<rest>' when x has no " (" *)
 Theorem C08_name_change_fresh : forall x rest,
-  no_byte C_DOT x -> starts_dot_or_empty rest -> rsplit2 C_SP C_LP x = None ->
+  plain x -> starts_dot_or_empty rest -> rsplit2 C_SP C_LP x = None -> (length x + 4 <= 63)%nat ->
   name_change (x ++ rest) = x ++ SUFFIX2 ++ rest.
 Proof. exact name_change_fresh. Qed.
 
 (* 'x (n).<rest>' -> 'x (n+1).<rest>' for every digit string n below u32::MAX, whatever x *)
 Theorem C08_name_change_increment : forall x ds rest,
-  no_byte C_DOT x -> starts_dot_or_empty rest ->
-  ds <> [] -> all_digits ds -> digits_val ds < 4294967295 ->
+  plain x -> starts_dot_or_empty rest ->
+  ds <> [] -> all_digits ds -> digits_val ds < 4294967295 -> (length x <= 20)%nat ->
   name_change (x ++ [C_SP; C_LP] ++ ds ++ [C_RP] ++ rest)
   = x ++ [C_SP; C_LP] ++ dec (digits_val ds + 1) ++ [C_RP] ++ rest.
 Proof. exact name_change_increment. Qed.
 
 (* at 4294967295 the number cannot grow: ' (2)' is appended instead (no overflow) *)
 Theorem C08_name_change_at_u32_max : forall x ds rest,
-  no_byte C_DOT x -> starts_dot_or_empty rest ->
-  ds <> [] -> all_digits ds -> digits_val ds = 4294967295 ->
+  plain x -> starts_dot_or_empty rest ->
+  ds <> [] -> all_digits ds -> digits_val ds = 4294967295 -> (length x + length ds + 7 <= 63)%nat ->
   name_change (x ++ [C_SP; C_LP] ++ ds ++ [C_RP] ++ rest)
   = x ++ [C_SP; C_LP] ++ ds ++ [C_RP] ++ SUFFIX2 ++ rest.
 Proof. exact name_change_at_max. Qed.
 
 (* 'x' -> 'x (2)' -> 'x (3)' *)
 Theorem C08_name_change_twice : forall x rest,
-  no_byte C_DOT x -> starts_dot_or_empty rest -> rsplit2 C_SP C_LP x = None ->
+  plain x -> starts_dot_or_empty rest -> rsplit2 C_SP C_LP x = None -> (length x <= 20)%nat ->
   name_change (name_change (x ++ rest)) = x ++ [C_SP; C_LP; 51; C_RP] ++ rest.
 Proof. exact name_change_twice. Qed.
 
 (* 'h.<rest>' -> 'h-2.<rest>' -> 'h-3.<rest>', 'h-n' -> 'h-(n+1)' *)
 Theorem C08_hostname_change_fresh : forall x rest,
-  no_byte C_DOT x -> starts_dot_or_empty rest -> no_byte C_HY x ->
+  plain x -> starts_dot_or_empty rest -> no_byte C_HY x -> (length x + 2 <= 63)%nat ->
   hostname_change (x ++ rest) = x ++ [C_HY; 50] ++ rest.
 Proof. exact hostname_change_fresh. Qed.
 
 Theorem C08_hostname_change_increment : forall x ds rest,
-  no_byte C_DOT x -> starts_dot_or_empty rest ->
-  ds <> [] -> all_digits ds -> digits_val ds < 4294967295 ->
+  plain x -> starts_dot_or_empty rest ->
+  ds <> [] -> all_digits ds -> digits_val ds < 4294967295 -> (length x <= 20)%nat ->
   hostname_change (x ++ [C_HY] ++ ds ++ rest) = x ++ [C_HY] ++ dec (digits_val ds + 1) ++ rest.
 Proof. exact hostname_change_increment. Qed.
 
 Theorem C08_hostname_change_at_u32_max : forall x ds rest,
-  no_byte C_DOT x -> starts_dot_or_empty rest ->
-  ds <> [] -> all_digits ds -> digits_val ds = 4294967295 ->
+  plain x -> starts_dot_or_empty rest ->
+  ds <> [] -> all_digits ds -> digits_val ds = 4294967295 -> (length x + length ds + 3 <= 63)%nat ->
   hostname_change (x ++ [C_HY] ++ ds ++ rest) = x ++ [C_HY] ++ ds ++ [C_HY; 50] ++ rest.
 Proof. exact hostname_change_at_max. Qed.
 
 Theorem C08_hostname_change_twice : forall x rest,
-  no_byte C_DOT x -> starts_dot_or_empty rest -> no_byte C_HY x ->
+  plain x -> starts_dot_or_empty rest -> no_byte C_HY x -> (length x <= 20)%nat ->
   hostname_change (hostname_change (x ++ rest)) = x ++ [C_HY; 51] ++ rest.
 Proof. exact hostname_change_twice. Qed.
 
@@ -132,29 +132,23 @@ Proof. exact hostname_change_twice. Qed.
 Theorem C08_suffix_roundtrip : forall n, n <= 4294967295 -> parse_u32 (dec n) = Some n.
 Proof. exact parse_dec. Qed.
 
-(* both functions only rewrite the text before the first '.' *)
-Theorem C08_rename_keeps_text_after_first_dot : forall s,
-  (exists nf, name_change s = nf ++ snd (split_first s)) /\
-  (exists nf, hostname_change s = nf ++ snd (split_first s)).
-Proof. exact rename_shape_both. Qed.
+(* STILL ENCODABLE, for EVERY input (formerly refuted): both functions keep everything from the
+   first UNESCAPED dot on, and what they put in front of it is at most 63 bytes of label text
+   (label_with_suffix shortens the base), so at most 63 bytes on the wire. *)
+Theorem C08_still_encodable : forall s,
+  (exists nf, name_change s = nf ++ snd (split_first_label s) /\ (length nf <= 63)%nat) /\
+  (exists nf, hostname_change s = nf ++ snd (split_first_label s) /\ (length nf <= 63)%nat).
+Proof. exact rename_fits_both. Qed.
 
-(* "the new name is still encodable" is FALSE: a first label of 60 bytes (62 for a host name)
-   grows past 63 bytes ... *)
-Theorem C08_still_encodable_refuted :
-  (exists s, first_label_encodable s = true /\ first_label_encodable (name_change s) = false) /\
-  (exists s, first_label_encodable s = true /\ first_label_encodable (hostname_change s) = false).
-Proof. exact rename_overflow_both. Qed.
-
-(* ... and on the daemon (witness run on the real daemon thread): instance label of 62 bytes, a
-   conflicting SRV during probing; the thread dies when it writes the probe for the new name. *)
-Theorem C08_rename_kills_daemon_refuted : only_known 21 (self8 w_longlabel_ifs w_longlabel_its).
-Proof. exact w_longlabel_known8. Qed.
-
-(* an escaped dot inside the instance label is taken for a label boundary *)
-Theorem C08_rename_escaped_dot_refuted :
-  exists s, rename_keeps_rest s (name_change s) = false /\
-            name_change s = [77;121;92;32;40;50;41;46;83;118;99;46;95;116;46;95;116;99;112;46;108;111;99;97;108;46].
-Proof. exact name_change_escaped_dot_refuted. Qed.
+(* the inputs that used to break: a 60-byte instance label, a 62-byte host label, an escaped dot *)
+Theorem C08_former_rename_witnesses :
+  first_label_encodable (name_change (repeat 110 60 ++ [46; 95; 116; 46; 108; 111; 99; 97; 108; 46])) = true /\
+  rename_keeps_rest (repeat 110 60 ++ [46; 95; 116; 46; 108; 111; 99; 97; 108; 46])
+                    (name_change (repeat 110 60 ++ [46; 95; 116; 46; 108; 111; 99; 97; 108; 46])) = true /\
+  first_label_encodable (hostname_change (repeat 104 62 ++ [46; 108; 111; 99; 97; 108; 46])) = true /\
+  name_change [77;121;92;46;83;118;99;46;95;116;46;95;116;99;112;46;108;111;99;97;108;46]
+  = [77;121;92;46;83;118;99;32;40;50;41;46;95;116;46;95;116;99;112;46;108;111;99;97;108;46].
+Proof. exact rename_former_witnesses. Qed.
 
 (* ---- names in packets after a rename ---------------------------------------------------------------- *)
 
@@ -166,23 +160,58 @@ Theorem C08_announcement_names_resolved : forall rg s i v4,
          (announce_records rg s i v4).
 Proof. exact announce_names_resolved. Qed.
 
-(* "every packet uses the new names" is FALSE for goodbyes, for direct SRV answers after a host
-   rename, and for a renamed service whose name has an upper-case letter (it still answers for the
-   name it gave up).  Witnesses run on the real daemon; the model shows the same. *)
-Theorem C08_goodbye_uses_old_names_refuted : only_known 22 (self8 w_renamed_ifs w_renamed_its).
-Proof. exact w_renamed_known8. Qed.
-Theorem C08_direct_answer_uses_old_host_refuted : only_known 23 (self8 w_hostrenamed_ifs w_hostrenamed_its).
-Proof. exact w_hostrenamed_known8. Qed.
-Theorem C08_mixed_case_answers_for_old_name_refuted : only_known 28 (self8 w_mixedcase_ifs w_mixedcase_its).
-Proof. exact w_mixedcase_known8. Qed.
+(* Goodbyes use the current names (formerly refuted): the goodbye packet IS the specification's
+   packet with resolved = true - PTR target, SRV/TXT owner, SRV target, address owner resolved
+   through the interface's registry. *)
+Theorem C08_goodbye_names_resolved : forall rg s addrs, goodbye_msg rg s addrs = spec_goodbye_msg rg true s addrs.
+Proof. exact goodbye_msg_is_spec. Qed.
 
-(* A conflict or a lost tie-break never makes probe queries come closer than 250 ms: that is
-   C07_probe_spacing_all_schedules, whose operation sequences include OConflict and OTiebreak.
+(* Direct answers use the current names (formerly refuted): an instance question is answered
+   only by the service whose CURRENT full name it names (letter case aside) ... *)
+Theorem C08_direct_answer_current_name : forall st g itf rg qn qt,
+  answer_instance_question st g itf rg qn qt <> ([], []) ->
+  exists ks, In ks (d_svcs st) /\ lower (resolve_name rg (s_full (snd ks))) = lower qn.
+Proof. exact instance_answer_current_name. Qed.
+
+(* ... and the SRV target and the owner of the additional address records are the host name that
+   service currently holds. *)
+Theorem C08_direct_answer_current_host : forall st g itf rg qn qt an ar,
+  answer_instance_question st g itf rg qn qt = (an, ar) ->
+  exists host, (forall r, In r ar -> r_name r = host) /\
+               (forall r p w o h, In r an -> r_data r = RSrv p w o h -> h = host) /\
+               (an = [] /\ ar = [] \/ exists ks, In ks (d_svcs st) /\ host = resolve_name rg (s_host (snd ks))).
+Proof. exact instance_answer_current_host. Qed.
+
+(* the former witnesses (renamed instance + goodbye, renamed host + SRV question, 62-byte label +
+   conflict, mixed-case instance + question for the old name) are accepted by chk_C08 now *)
+Theorem C08_former_witnesses_accepted :
+  self8 w_renamed_ifs w_renamed_its = [] /\ self8 w_hostrenamed_ifs w_hostrenamed_its = [] /\
+  self8 w_longlabel_ifs w_longlabel_its = [] /\ self8 w_mixedcase_ifs w_mixedcase_its = [].
+Proof. exact w_former_c08_accepted. Qed.
+
+(* The length rule of the tie-break on the daemon model: a competing probe whose record list
+   extends the daemon's own (equal on the common prefix) wins; the daemon's next probe query for the
+   name comes one second later. *)
+Theorem C08_prefix_loses_and_defers :
+  self8 w_prefix_lost_ifs w_prefix_lost_its = [] /\
+  wire_probe_times 2 n_inst (d_init w_prefix_lost_ifs) w_prefix_lost_its = [1000145; 1001300; 1001550; 1001800].
+Proof. exact w_prefix_lost_defers. Qed.
+
+(* "after a lost comparison it waits one second" is FALSE when a host-name conflict follows within
+   that second: since fix 30a3832 update_hostname restarts the instance name's probe at now + 0..250
+   (chk_C08 code 30; witness run on the real daemon: tie-break lost at +471 ms, instance name probed
+   again at +696 ms). *)
+Theorem C08_restart_cancels_deferral_refuted : only_known 30 (self8 w_skipreprobe_ifs w_skipreprobe_its).
+Proof. exact w_skipreprobe_known8. Qed.
+
+(* A conflict or a lost tie-break never makes probe queries of one series come closer than 250 ms:
+   that is C07_probe_spacing_all_schedules, whose operation sequences include OConflict and OTiebreak.
 
    NOT proved (validated by simulation, monitor c08_final): "two daemons claiming the same name
    over a loss-free link always end with exactly one of them holding the original name and both
-   announced".  Also not proved as a theorem over all histories: that chk_C08 accepts every run of
-   the daemon model outside the classes above (the monitor is run on the model's own output for
+   announced"; it stays FALSE for instance names with an escaped dot (known finding
+   C08-escaped-dot-conflict-undetected).  Also not proved as a theorem over all histories: that
+   chk_C08 accepts every run of the daemon model (the monitor is run on the model's own output for
    every generated history). *)
 
 (* Non-vacuity: well-typed records that compare Less / Greater / Equal; a tie-break that is lost. *)
@@ -216,12 +245,13 @@ Print Assumptions C08_hostname_change_increment.
 Print Assumptions C08_hostname_change_at_u32_max.
 Print Assumptions C08_hostname_change_twice.
 Print Assumptions C08_suffix_roundtrip.
-Print Assumptions C08_rename_keeps_text_after_first_dot.
-Print Assumptions C08_still_encodable_refuted.
-Print Assumptions C08_rename_kills_daemon_refuted.
-Print Assumptions C08_rename_escaped_dot_refuted.
+Print Assumptions C08_still_encodable.
+Print Assumptions C08_former_rename_witnesses.
 Print Assumptions C08_announcement_names_resolved.
-Print Assumptions C08_goodbye_uses_old_names_refuted.
-Print Assumptions C08_direct_answer_uses_old_host_refuted.
-Print Assumptions C08_mixed_case_answers_for_old_name_refuted.
+Print Assumptions C08_goodbye_names_resolved.
+Print Assumptions C08_direct_answer_current_name.
+Print Assumptions C08_direct_answer_current_host.
+Print Assumptions C08_former_witnesses_accepted.
+Print Assumptions C08_prefix_loses_and_defers.
+Print Assumptions C08_restart_cancels_deferral_refuted.
 Print Assumptions C08_compare_example.
